@@ -206,6 +206,34 @@ func runC16(c *Ctx) {
 				puts = append(puts, ci)
 			}
 		})
+		// second form: the framing tail was extracted into a new helper that the constructor calls once (the size check
+		// stays in the constructor, in front of the call)
+		var outer *ssa.Function
+		var site *ssa.Call
+		if len(puts) == 0 {
+			eachInstr(f, func(in ssa.Instruction) {
+				ci, ok := in.(*ssa.Call)
+				if !ok {
+					return
+				}
+				h := ci.Call.StaticCallee()
+				if h == nil || !isNewHelper(h) || soleCallSite(h) != in {
+					return
+				}
+				var hp []*ssa.Call
+				eachInstr(h, func(x ssa.Instruction) {
+					if cx, ok := x.(*ssa.Call); ok && callName(cx) == binPut16 {
+						hp = append(hp, cx)
+					}
+				})
+				if len(hp) > 0 && site == nil {
+					outer, site, puts = f, ci, hp
+				}
+			})
+			if site != nil {
+				f = site.Call.StaticCallee()
+			}
+		}
 		if len(puts) == 0 {
 			c.fail(key, f.Pos(), "no 2-byte length header is written")
 			continue
@@ -261,6 +289,29 @@ func runC16(c *Ctx) {
 				if cm, ok := g.asCmp(); ok && exprStr(cm.X) == exprStr(L) && cm.Op == token.LEQ {
 					if n, ok := constInt(cm.Y); ok && n == 65535 {
 						guarded = true
+					}
+				}
+			}
+			if !guarded && site != nil {
+				// the check sits in front of the helper call: len(<argument>) <= 65535 for the argument whose length the
+				// helper frames
+				if ll, ok := L.(*ssa.Call); ok && callName(ll) == "builtin:len" {
+					for i, prm := range f.Params {
+						if ll.Call.Args[0] != ssa.Value(prm) || i >= len(site.Call.Args) {
+							continue
+						}
+						for _, g := range guardsOfInstr(site) {
+							cm, ok := g.asCmp()
+							if !ok || cm.Op != token.LEQ {
+								continue
+							}
+							if n, ok := constInt(cm.Y); !ok || n != 65535 {
+								continue
+							}
+							if cl, ok := cm.X.(*ssa.Call); ok && callName(cl) == "builtin:len" && cl.Call.Args[0] == site.Call.Args[i] {
+								guarded = true
+							}
+						}
 					}
 				}
 			}
@@ -336,6 +387,25 @@ func runC16(c *Ctx) {
 				}
 			}
 		})
+		if site != nil {
+			// the constructor itself hands out exactly what the helper framed
+			for _, r := range returnsOf(outer) {
+				rv := returnedValues(r)
+				if len(rv) == 0 || isNilConst(rv[0]) {
+					continue
+				}
+				if _, isPtr := rv[0].Type().Underlying().(*types.Pointer); !isPtr {
+					continue
+				}
+				v := rv[0]
+				if ex, ok := v.(*ssa.Extract); ok && ex.Index == 0 {
+					v = ex.Tuple
+				}
+				if v != ssa.Value(site) && badOut == "" {
+					badOut, badPos = "hands out "+exprStr(rv[0])+", which is not the buffer its framing helper built", instrPos(r)
+				}
+			}
+		}
 		if outs == 0 {
 			c.fail(key, f.Pos(), "the constructor hands out no buffer")
 			continue
@@ -707,6 +777,27 @@ func runC16(c *Ctx) {
 	// ---------------------------------------------------------------- R2
 	c.rule("R2", "every stream reader uses the frame reader", 4)
 	// after a read / framing error the stream servers stop reading that connection (the stream position is unknown)
+	// frame readers: the two dnsutils readers and every server function that wraps one of them and hands its error back
+	// (readQueryFromStream since D48) — the obligation then also holds at the wrapper's call sites
+	frameReaders := map[string]bool{relDnsutils + ".ReadMsgFromTCP": true, relDnsutils + ".ReadRawMsgFromTCP": true}
+	for changed := true; changed; {
+		changed = false
+		for _, f := range p.funcsIn(relServer) {
+			if frameReaders[funcName(f)] || f.Signature.Results().Len() == 0 {
+				continue
+			}
+			eachInstr(f, func(in ssa.Instruction) {
+				ci, ok := in.(*ssa.Call)
+				if !ok || !frameReaders[callName(ci)] {
+					return
+				}
+				if ok2, _ := errCheckedAndReturned(ci); ok2 && !frameReaders[funcName(f)] {
+					frameReaders[funcName(f)] = true
+					changed = true
+				}
+			})
+		}
+	}
 	for _, f := range p.funcsIn(relServer) {
 		fn := f
 		eachInstr(f, func(in ssa.Instruction) {
@@ -715,7 +806,7 @@ func runC16(c *Ctx) {
 				return
 			}
 			cn := callName(ci)
-			if cn != relDnsutils+".ReadMsgFromTCP" && cn != relDnsutils+".ReadRawMsgFromTCP" {
+			if !frameReaders[cn] {
 				return
 			}
 			ok2, why := errCheckedAndReturned(ci)
